@@ -166,6 +166,10 @@ def generate(seed, idx, tier):
         for o in ops:
             if 'frame' in o:
                 o['frame']['index'] = windex
+    else:
+        for o in ops[1:]:
+            if 'frame' in o and rng.random() < 0.25:
+                o['frame']['dup_labels'] = True
     if ops[0].get('has_nulls') == 'infer' and rng.random() < 0.5:
         # missing values arriving only with later batches: the first batch
         # of float / timestamp columns has none, so the columns are declared
